@@ -108,6 +108,7 @@ class VSocket(object):
         self.closed = False             # really closed (fd released)
         self.close_requested = False    # close() called
         self.io_refs = 0                # open makefile() objects
+        self.timeout = None             # None = blocking
         self.fd = net.new_fd(self)
         self.files = 0
 
@@ -156,6 +157,8 @@ class VSocket(object):
         if c.wr_shutdown:
             raise BrokenPipeError(errno.EPIPE, 'Broken pipe')
         data = bytes(data)
+        if self.timeout is not None and len(data) > 1:
+            data = data[:max(1, len(data) // 2)]    # short write
         if c.eof_pending:
             c.sent_after_end += len(data)
             if self.net.send_after_close == 'raise' or (
@@ -235,7 +238,17 @@ class VSocket(object):
         return -1 if self.closed else self.fd
 
     def settimeout(self, t):
-        pass
+        """Timeout mode (t is not None) changes what the OS may answer: a
+        send may be short, and a read that finds nothing may give up with
+        socket.timeout instead of waiting.  The model then gives exactly
+        those answers (pyCraft itself never sets a timeout)."""
+        self.timeout = t
+
+    def gettimeout(self):
+        return self.timeout
+
+    def setblocking(self, flag):
+        self.timeout = None if flag else 0.0
 
     def setsockopt(self, *a):
         pass
@@ -264,6 +277,9 @@ def _read(sock, n, kind, fobj=None):
     if n == 0:
         return b''
     if not c.readable():
+        if sock.timeout is not None:
+            S.event('read-timeout', c.id, S.me().id)
+            raise TimeoutError('timed out')
         S.block_until(lambda: c.readable()
                       or (fobj is not None and fobj.closed), 'read')
         if fobj is not None and fobj.closed:
@@ -470,6 +486,32 @@ class _TimeitModule(object):
         return _net().default_timer()
 
 
+class _TimeModule(object):
+    """Stand-in for the 'time' module if the tree under test uses it in
+    connection.py (the pinned tree does not): time() is a wall clock and may
+    step backwards (NTP), the monotonic clocks may not."""
+    _calls = [0]
+
+    @staticmethod
+    def time():
+        net = _net()
+        _TimeModule._calls[0] += 1
+        net.clock += 0.001
+        # every second reading the wall clock has been set back by 5 s
+        return 1.6e9 + net.clock - (5.0 if _TimeModule._calls[0] % 2 == 0
+                                    else 0.0)
+
+    @staticmethod
+    def monotonic():
+        return _net().default_timer()
+
+    perf_counter = monotonic
+
+    @staticmethod
+    def sleep(t):
+        _net().clock += t
+
+
 _INSTALLED = [False]
 
 
@@ -479,4 +521,7 @@ def install(conn_module):
     conn_module.socket = _SocketModule
     conn_module.select = _SelectModule
     conn_module.timeit = _TimeitModule
+    import types
+    if isinstance(getattr(conn_module, 'time', None), types.ModuleType):
+        conn_module.time = _TimeModule
     _INSTALLED[0] = True
